@@ -385,6 +385,9 @@ def _apply_mutator(mutator, exprs, max_depth=None):
         check_func = _check_par if taskgen.pickled_exprs else _check_seq
         exprs = check_func(taskgen, nexprs, stats)
         exprs = nodes.reduplicate(exprs)
+        # re-duplicated nodes have new ids: the id-based lookups (indices,
+        # definition nodes) must know them
+        smtlib.collect_information(exprs)
         gran = gran // 2
         taskgen = TaskGenerator(exprs, gran, mutator, max_depth)
 
